@@ -103,7 +103,7 @@ def _decode_hex_char(value: str, index: int, token: TokenT) -> tuple[int, int]:
 
 def _parse_hex_digits(digits: str, token: TokenT) -> int:
     code_point = 0
-    for digit in digits.encode():
+    for digit in map(ord, digits):
         code_point <<= 4
         if digit >= 48 and digit <= 57:
             code_point |= digit - 48
